@@ -86,6 +86,9 @@ pub enum FaultMode {
     Errno(i32),
     /// (write only) perform a short write of this many bytes; the *next* write fails with errno
     ShortThenErrno(usize, i32),
+    /// (write only) the call transfers only this many bytes and reports that, no error follows: a
+    /// legal answer of write(2) that the caller has to continue from
+    ShortOk(usize),
 }
 
 #[derive(Debug, Clone, Copy)]
@@ -132,6 +135,8 @@ pub struct Plan {
     pub fault: Option<Fault>,
     pub pending_errno: Option<i32>,
     pub fault_fired: bool,
+    /// a `ShortOk` answer was given (not an error: `fault_fired` stays false)
+    pub benign_fired: bool,
     pub sched: Option<&'static dyn IoSched>,
 }
 
@@ -254,10 +259,18 @@ fn pre(kind: Kind, fd: c_int, arg: i64) -> Decision {
                 Some(k) => kind == k && p.call_kinds.iter().filter(|x| **x == k).count() as u64 == f.call_index + 1,
                 None => f.call_index == idx,
             };
+            if hit && matches!(f.mode, FaultMode::ShortOk(_)) {
+                if let (FaultMode::ShortOk(n), Kind::Write, false) = (f.mode, kind, p.benign_fired) {
+                    p.benign_fired = true;
+                    return Decision::Short(n);
+                }
+                return Decision::Go;
+            }
             if hit && !p.fault_fired {
                 p.fault_fired = true;
                 match f.mode {
                     FaultMode::Errno(e) => return Decision::Fail(e),
+                    FaultMode::ShortOk(_) => {}
                     FaultMode::ShortThenErrno(n, e) => {
                         if kind == Kind::Write {
                             p.pending_errno = Some(e);
